@@ -558,7 +558,17 @@ impl Visit<'_> for TraitBoundsVisitor {
                 .insert(self.curr_type_param.clone().unwrap());
         }
 
-        syn::visit::visit_trait_bound(self, node);
+        // NOTE: Only the bindings of this bound are dispatched on. Bounds nested
+        // in its arguments (e.g. `dyn Trait<Assoc = X>`) don't bound this type
+        if let Some(syn::PathArguments::AngleBracketed(bracketed)) =
+            node.path.segments.last().map(|segment| &segment.arguments)
+        {
+            for arg in &bracketed.args {
+                if let syn::GenericArgument::AssocType(assoc_type) = arg {
+                    self.visit_assoc_type(assoc_type);
+                }
+            }
+        }
     }
 
     fn visit_assoc_type(&mut self, node: &syn::AssocType) {
